@@ -724,9 +724,9 @@ class StrandDetector:
     # all splice sites must be canonical from the same strand, not just the majority
     def get_clean_strand(self, introns):
         count_fwd, count_rev = self.count_canonical_sites(introns)
-        if count_fwd == 0 and count_rev > 0:
+        if count_rev > 0 and count_rev == len(introns):
             return  '-'
-        elif count_fwd > 0 and count_rev == 0:
+        elif count_fwd > 0 and count_fwd == len(introns):
             return '+'
         return '.'
 
